@@ -329,7 +329,14 @@ def validate(prog, hist_calls=1):
     """Raises ref.Corner if the reference refuses the program on its initial state."""
     st = R.new_state(prog, prog["top"])
     call = R.Call(prog, st)
-    env = {p: R.get_at(st, p) for p, _ in call.rand_leaves}
+    env = {}
+    for p, t in call.rand_leaves:
+        if t[0] == "size":
+            env[p] = t[1]                      # evaluate with the largest admissible size: every element is typed
+        elif isinstance(p[-1], int) and p[-1] >= len(R.get_at(st, p[:-1])):
+            env[p] = list(R.leaf_domain(prog, t))[0]
+        else:
+            env[p] = R.get_at(st, p)
     call.holds(env)   # evaluates every statement once -> typing corners surface (data-dependent ones may not)
     return call
 
@@ -783,4 +790,230 @@ def dyn_history(g, prog, nops=12):
             else:
                 hist.append({"op": "with", "o": inst, "inline": inline_for(insts[inst])})
     hist.append({"op": "randomize", "o": "o0"})
+    return hist
+
+
+# ---------------------------------------------------------------------------
+# soft constraints (C05)
+# ---------------------------------------------------------------------------
+
+def soft_expr(g, scope):
+    """soft targets: mostly field == literal / field relop literal / small in-sets, so that conflicts are frequent"""
+    r = g.rng
+    ints = g.leaves(scope, None)
+    rand_ints = [(p, fd) for p, fd in ints if fd["r"]] or ints
+    p, fd = r.choice(rand_ints)
+    w, sg = fd["w"], fd["s"]
+    lo, hi = (-(1 << (w - 1)), (1 << (w - 1)) - 1) if sg else (0, (1 << w) - 1)
+    c = r.random()
+    if c < 0.45:
+        return ["b", "==", ["f", list(p)], ["c", r.randint(lo, hi)]]
+    if c < 0.65:
+        return ["b", r.choice(["<", ">", "<=", ">="]), ["f", list(p)], ["c", r.randint(lo, hi)]]
+    if c < 0.80:
+        vals = sorted(set(r.randint(lo, hi) for _ in range(r.randint(1, 3))))
+        return ["in", ["f", list(p)], [["c", v] for v in vals]]
+    if c < 0.92 and len(rand_ints) >= 2:
+        same = [(q, qd) for q, qd in rand_ints if qd["s"] == sg and q != p]
+        if same:
+            q, qd = r.choice(same)
+            return ["b", r.choice(["==", "<", "!="]), ["f", list(p)], ["f", list(q)]]
+    return g.cmp(scope, 1) or ["b", "==", ["f", list(p)], ["c", r.randint(lo, hi)]]
+
+
+def soft_stmt(g, scope, nest=1):
+    r = g.rng
+    c = r.random()
+    if nest > 0 and c < 0.2:
+        cond = g.boolean(scope, 1, 0)
+        arms = [[cond, [soft_stmt(g, scope, nest - 1) for _ in range(r.randint(1, 2))]]]
+        if r.random() < 0.4:
+            arms.append([g.boolean(scope, 1, 0), [soft_stmt(g, scope, nest - 1)]])
+        els = [soft_stmt(g, scope, nest - 1)] if r.random() < 0.5 else None
+        return ["if", arms, els]
+    if nest > 0 and c < 0.32:
+        return ["imp", g.boolean(scope, 1, 0), [soft_stmt(g, scope, nest - 1) for _ in range(r.randint(1, 2))]]
+    return ["soft", soft_expr(g, scope)]
+
+
+def soft_program(rng, max_bits=9):
+    r = rng
+    g = G(rng, max_bits)
+    fields = g.scalar_fields(nrand=r.randint(1, 3), nnon=r.choice([0, 1, 1]), allow_enum=False)
+    prog = {"enums": g.enums, "classes": {"C0": {"base": None, "fields": fields, "blocks": []}}, "top": "C0"}
+    scope = scope_of(prog, "C0")
+    if not g.leaves(scope, None):
+        return None, g
+    nb = r.choice([1, 1, 2, 3])
+    for bi in range(nb):
+        st = []
+        for _ in range(r.choice([0, 0, 1, 2])):
+            s = g.stmt(scope, depth=1, sdepth=1, allow=("e", "imp", "if"))
+            if s:
+                st.append(s)
+        for _ in range(r.randint(1, 4) if nb == 1 else r.randint(0, 3)):
+            st.append(soft_stmt(g, scope))
+        r.shuffle(st)
+        prog["classes"]["C0"]["blocks"].append({"n": "c%d" % bi, "st": st})
+    plant(prog, g)
+    return prog, g
+
+
+def soft_history(g, prog, ncalls=5):
+    r = g.rng
+    scope = scope_of(prog, "C0")
+    nonrand = [(p, fd) for p, fd in scope if not fd["r"]]
+    hist = []
+    for ci in range(ncalls):
+        for p, fd in nonrand:
+            if r.random() < 0.5:
+                hist.append({"op": "set", "o": "o0", "path": list(p), "v": g.rand_val(fd["w"], fd["s"])})
+        if r.random() < 0.45:
+            hist.append({"op": "randomize", "o": "o0"})
+        else:
+            st = []
+            for _ in range(r.choice([0, 0, 1])):
+                s = g.stmt(scope, depth=1, sdepth=0, allow=("e",))
+                if s:
+                    st.append(s)
+            for _ in range(r.randint(1, 3)):
+                st.append(soft_stmt(g, scope))
+            r.shuffle(st)
+            hist.append({"op": "with", "o": "o0", "inline": st})
+    return hist
+
+
+# ---------------------------------------------------------------------------
+# lists (C04)
+# ---------------------------------------------------------------------------
+
+def list_program(rng, max_points=1 << 12):
+    r = rng
+    g = G(rng, 12)
+    prog = {"enums": {}, "classes": {}, "top": "T"}
+    fields = []
+    a = g.int_field("a", True, w=r.choice([2, 3]), signed=False)
+    fields.append(a)
+    if r.random() < 0.5:
+        fields.append(g.int_field("k", False, w=3, signed=False))
+    ew = r.choice([2, 2, 3])
+    esg = r.random() < 0.25
+    kind = r.choice(["fixed", "fixed", "randsz", "randsz", "nonrand"])
+    L = {"n": "l", "k": "list", "ek": "int", "w": ew, "s": esg}
+    if kind == "fixed":
+        L.update(r=True, rsz=False, sz=r.choice([0, 1, 2, 3, 3]))
+    elif kind == "randsz":
+        L.update(r=True, rsz=True, sz=0, szmax=r.choice([2, 3]))
+    else:
+        n = r.choice([1, 2, 3])
+        L.update(r=False, rsz=False, init=[g.rand_val(ew, esg) for _ in range(n)])
+    fields.append(L)
+    second = None
+    if kind == "fixed" and L["sz"] >= 1 and r.random() < 0.3:
+        second = {"n": "m", "k": "list", "ek": "int", "w": ew, "s": esg, "r": True, "rsz": False, "sz": L["sz"]}
+        fields.append(second)
+    objlist = None
+    if r.random() < 0.35 and kind != "randsz":
+        prog["classes"]["E"] = {"base": None, "fields": [
+            {"n": "x", "k": "int", "w": 2, "s": False, "r": True},
+            {"n": "y", "k": "int", "w": 2, "s": False, "r": True}], "blocks": []}
+        if r.random() < 0.5:
+            prog["classes"]["E"]["blocks"].append({"n": "ec", "st": [["e", ["b", r.choice(["<", "<=", "!="]), ["f", ["x"]], ["f", ["y"]]]]]})
+        objlist = {"n": "ol", "k": "list", "ek": "obj", "c": "E", "r": True, "sz": r.choice([1, 2])}
+        fields.append(objlist)
+    r.shuffle(fields)
+    prog["classes"]["T"] = {"base": None, "fields": fields, "blocks": []}
+    lo, hi = (-(1 << (ew - 1)), (1 << (ew - 1)) - 1) if esg else (0, (1 << ew) - 1)
+    st = []
+    if kind == "randsz":
+        m = L["szmax"]
+        c = r.random()
+        if c < 0.4:
+            vals = sorted(set(r.randint(0, m) for _ in range(r.randint(1, 3))))
+            st.append(["e", ["in", ["sz", ["l"]], [["c", v] for v in vals]]])
+        elif c < 0.7:
+            st.append(["e", ["b", "<=", ["sz", ["l"]], ["c", m]]])
+            if r.random() < 0.5:
+                st.append(["e", ["b", ">", ["sz", ["l"]], ["c", 0]]])
+        else:
+            st.append(["e", ["b", "<=", ["sz", ["l"]], ["c", m]]])
+            st.append(["e", ["b", r.choice(["==", "<=", ">="]), ["sz", ["l"]], ["f", ["a"]]]])
+    lit = lambda: ["c", r.randint(lo, hi + 1)]
+    for _ in range(r.randint(1, 3)):
+        c = r.random()
+        if c < 0.30:
+            body = [["e", ["b", r.choice(["<", "<=", "!=", ">", "=="]), ["it"], lit()]]]
+            if r.random() < 0.3:
+                body.append(["e", ["b", "!=", ["it"], ["f", ["a"]]]] if not esg else ["e", ["b", "!=", ["it"], lit()]])
+            st.append(["fe", ["l"], "it", body])
+        elif c < 0.42:
+            st.append(["fe", ["l"], "idx", [["e", ["b", r.choice(["==", "!=", ">="]), ["el", ["l"], ["idx"]],
+                                                     ["idx"] if not esg else lit()]]]])
+        elif c < 0.58:
+            op = r.choice([">", ">=", "!=", "<"])
+            st.append(["fe", ["l"], "both", [["if", [[["b", ">", ["idx"], ["c", 0]],
+                                                      [["e", ["b", op, ["it"], ["el", ["l"], ["b", "-", ["idx"], ["c", 1]]]]]]]], None]]])
+        elif c < 0.70 and kind != "nonrand":
+            k = r.randint(0, max(1, hi) * 2)
+            st.append(["e", ["b", r.choice(["==", "<", "<=", ">"]), ["sum", ["l"]], ["c", k]]])
+        elif c < 0.80:
+            st.append(["uniq", [["lst", ["l"]]] + ([["f", ["a"]]] if (not esg and r.random() < 0.4) else [])])
+        elif c < 0.88 and not esg:
+            st.append(["e", [r.choice(["in", "nin"]), ["f", ["a"]], [["lst", ["l"]]]]])
+        elif c < 0.94 and second is not None:
+            st.append(["uvec", [["l"], ["m"]]])
+        elif second is not None:
+            st.append(["fe", ["m"], "both", [["e", ["b", r.choice(["<=", "!="]), ["it"], ["el", ["l"], ["idx"]]]]]])
+    if objlist is not None:
+        c = r.random()
+        if c < 0.5:
+            st.append(["fe", ["ol"], "it", [["e", ["b", r.choice(["<", "!=", ">="]), ["ita", "x"], ["ita", "y"]]]]])
+        else:
+            st.append(["fe", ["ol"], "both", [["if", [[["b", ">", ["idx"], ["c", 0]],
+                                                       [["e", ["b", r.choice([">", "!="]), ["ita", "x"],
+                                                               ["el", ["ol"], ["b", "-", ["idx"], ["c", 1]], "x"]]]]]], None]]])
+        if r.random() < 0.4:
+            st.append(["e", ["b", r.choice(["==", "<"]), ["f", ["ol", 0, "x"]], ["f", ["a"]]]])
+    r.shuffle(st)
+    # size constraints first keeps the source readable; order is semantically irrelevant
+    nb = r.choice([1, 2])
+    if nb == 1 or len(st) < 2:
+        prog["classes"]["T"]["blocks"].append({"n": "c0", "st": st})
+    else:
+        h = len(st) // 2
+        prog["classes"]["T"]["blocks"].append({"n": "c0", "st": st[:h]})
+        prog["classes"]["T"]["blocks"].append({"n": "c1", "st": st[h:]})
+    prog["_kind"] = kind
+    return prog, g
+
+
+def list_history(g, prog, ncalls=4):
+    r = g.rng
+    T = prog["classes"]["T"]
+    L = [fd for fd in T["fields"] if fd["n"] == "l"][0]
+    hist = []
+    kind = prog["_kind"]
+    for ci in range(ncalls):
+        c = r.random()
+        if c < 0.45 and ci > 0:
+            # edit the exposed list between calls
+            k = r.choice(["l_append", "l_append", "l_clear", "l_assign", "l_extend"])
+            cur_ok = True
+            if k == "l_append":
+                hist.append({"op": "l_append", "o": "o0", "path": ["l"], "v": g.rand_val(L["w"], L["s"])})
+            elif k == "l_extend":
+                hist.append({"op": "l_extend", "o": "o0", "path": ["l"], "v": [g.rand_val(L["w"], L["s"]) for _ in range(2)]})
+            elif k == "l_clear":
+                hist.append({"op": "l_clear", "o": "o0", "path": ["l"]})
+            else:
+                hist.append({"op": "l_assign", "o": "o0", "path": ["l"], "v": [g.rand_val(L["w"], L["s"]) for _ in range(r.randint(0, 3))]})
+        if r.random() < 0.2:
+            for fd in T["fields"]:
+                if fd["k"] == "int" and not fd["r"]:
+                    hist.append({"op": "set", "o": "o0", "path": [fd["n"]], "v": g.rand_val(fd["w"], fd["s"])})
+        if r.random() < 0.75:
+            hist.append({"op": "randomize", "o": "o0"})
+        else:
+            lo, hi = (0, (1 << 2) - 1)
+            hist.append({"op": "with", "o": "o0", "inline": [["e", ["b", r.choice(["<", ">", "!="]), ["f", ["a"]], ["c", r.randint(0, 3)]]]]})
     return hist
